@@ -163,15 +163,74 @@ def install_trace_hook():
     _installed["trace"] = True
 
 
+def install_rule_hook():
+    """Yield point before every reverse-mode rule application (inside backward passes)."""
+    if _installed.get("rule"):
+        return
+    common.setup_repo()
+    import autograd.core as core
+
+    orig_init = core.VJPNode.__init__
+
+    def init(self_, value, fun, args, kwargs, parent_argnums, parents):
+        orig_init(self_, value, fun, args, kwargs, parent_argnums, parents)
+        inner = self_.vjp
+
+        def vjp(g):
+            SCHED.yield_point("rule")
+            return inner(g)
+
+        self_.vjp = vjp
+
+    core.VJPNode.__init__ = init
+    _installed["rule"] = True
+
+
+SHARED = {}
+
+
+def reset_shared():
+    """Function objects produced by autograd that several threads share (each thread brings its own
+    data / tangent / cotangent); rebuilt before every schedule so that 'first use' races are reachable."""
+    import autograd.numpy as anp
+    from autograd import grad, make_jvp, make_vjp, value_and_grad
+
+    Y = lambda: SCHED.yield_point("explicit")
+
+    def f2(x, c, scale=1.0):
+        Y()
+        return anp.sum(anp.sin(x) * c) * scale
+
+    SHARED["grad_f2"] = grad(f2)
+    SHARED["vag_f2"] = value_and_grad(f2)
+
+    def f3(x):
+        a = anp.sin(x)
+        Y()
+        return a * x + anp.cumsum(x)
+
+    xs = onp.array([0.3, -1.2, 0.8])
+    SHARED["jvp_f3"] = make_jvp(f3)(xs)
+    SHARED["hvp_f3"] = make_jvp(grad(lambda t: anp.sum(f3(t) ** 2)))(xs)
+
+    def f4(x):
+        a = anp.tanh(x)
+        b = a * x
+        return anp.concatenate([b, a + b[::-1]])
+
+    SHARED["vjp_f4"] = make_vjp(f4)(xs)[0]
+
+
 class LineYield:
     """thorough tier: yield at LINE events inside autograd/tracer.py (sys.monitoring)."""
 
-    def __init__(self):
+    def __init__(self, files=("tracer.py",), kind="line"):
         self.tool = 3
         self.on = False
+        self.kind = kind
         import os
 
-        self.path = os.path.join(common.REPO, "autograd", "tracer.py")
+        self.paths = {os.path.join(common.REPO, "autograd", f) for f in files}
 
     def start(self):
         m = sys.monitoring
@@ -181,9 +240,9 @@ class LineYield:
         self.on = True
 
     def cb(self, code, line):
-        if code.co_filename != self.path:
+        if code.co_filename not in self.paths:
             return sys.monitoring.DISABLE
-        SCHED.yield_point("line")
+        SCHED.yield_point(self.kind)
         return None
 
     def stop(self):
@@ -288,7 +347,26 @@ def programs():
         # nested use of the shared cached function
         return grad(lambda s: s * grad(lambda t: CG(t * s))(onp.array([0.5, 0.1, -0.4]) * b)[0])(a)
 
-    return {"T1": T1, "T2": T2, "T3": T3, "T4": T4, "T5": T5, "T6": T6, "T7": T7, "T8": T8}
+    def T9(a, b):
+        # one grad(f) object shared by all threads, per-thread extra arguments (positional and keyword)
+        x = onp.array([0.3, -1.2, 0.8]) * b
+        return SHARED["grad_f2"](x, onp.array([1.0, 2.0, 3.0]) * a, scale=a)
+
+    def T10(a, b):
+        return SHARED["vag_f2"](onp.array([0.5, 0.1, -0.4]) * a, onp.array([3.0, 1.0, 2.0]) * b)
+
+    def T11(a, b):
+        # one pushforward closure shared by all threads, per-thread tangents
+        return SHARED["jvp_f3"](onp.array([1.0, -0.5, 0.25]) * a + b)[1]
+
+    def T12(a, b):
+        return SHARED["hvp_f3"](onp.array([0.2, 0.7, -1.0]) * b + a)[1]
+
+    def T13(a, b):
+        # one pullback closure shared by all threads, per-thread cotangents
+        return SHARED["vjp_f4"](onp.arange(1.0, 7.0) * a + b)
+
+    return {"T1": T1, "T2": T2, "T3": T3, "T4": T4, "T5": T5, "T6": T6, "T7": T7, "T8": T8, "T9": T9, "T10": T10, "T11": T11, "T12": T12, "T13": T13}
 
 
 PARAMS = [(2.0, 1.0), (1.5, 0.7), (0.8, 1.3), (1.1, 0.9)]
@@ -305,7 +383,10 @@ def explore(res, cfg, tier, seed, shard, nshard, budget):
     thunks = [(lambda nm=nm, pr=PARAMS[i]: P[nm](*pr)) for i, nm in enumerate(names)]
     with warnings.catch_warnings():
         warnings.simplefilter("ignore")
-        solo = [enc(t()) for t in thunks]
+        solo = []
+        for t in thunks:
+            reset_shared()
+            solo.append(enc(t()))
     sig_base = {"engine": "threads", "progs": names, "kinds": sorted(cfg["kinds"]), "mode": cfg["mode"]}
     explored = 0
     violating = 0
@@ -315,6 +396,9 @@ def explore(res, cfg, tier, seed, shard, nshard, budget):
         nonlocal explored, violating
         res["evaluations"] += 1
         try:
+            with warnings.catch_warnings():
+                warnings.simplefilter("ignore")
+                reset_shared()
             results, errors, trace = SCHED.run(thunks, prefix=prefix, policy=policy, kinds=cfg["kinds"])
         except Deadlock:
             res["not_judged"]["timeout"] = res["not_judged"].get("timeout", 0) + 1
@@ -335,7 +419,7 @@ def explore(res, cfg, tier, seed, shard, nshard, budget):
             if violating <= 3:
                 s = dict(sig_base, symptom="schedule_interference")
                 res["violations"].append({"sig": s, "case": {"kind": "schedule", "cfg": cfg, "choices": choices}, "detail": bad + " | schedule " + key})
-        elif SCHED.switches_in_trace > 0:
+        elif SCHED.switches_in_trace > 0 or (len(set(choices)) > 1 and any(nm in ("T11", "T12", "T13") for nm in names)):
             k = sig_key(dict(sig_base, sched=key))
             res["judged"][k] = 1
         else:
@@ -385,7 +469,9 @@ def explore(res, cfg, tier, seed, shard, nshard, budget):
 
 def free_running(res, seed, iters, nthreads):
     P = programs()
-    names = ["T1", "T3", "T6", "T2", "T4", "T5", "T7", "T8"]
+    names = ["T1", "T3", "T6", "T2", "T4", "T5", "T7", "T8", "T9", "T11", "T13"]
+    reset_shared()
+    SHARED["vjp_f4"](onp.ones(6))  # the free-running stress shares closures that have been used once
     old = sys.getswitchinterval()
     sys.setswitchinterval(1e-6)
     try:
@@ -447,6 +533,18 @@ def configs(tier):
     cf.append({"progs": ["T7", "T7"], "kinds": ["explicit", "enter_after"], "mode": "dfs"})
     cf.append({"progs": ["T7", "T8"], "kinds": ["explicit"], "mode": "dfs"})
     cf.append({"progs": ["T7", "T4", "T7"], "kinds": ["explicit"], "mode": "dfs"})
+    # shared operator / closure objects, per-thread data
+    cf.append({"progs": ["T9", "T9"], "kinds": ["enter_before", "explicit"], "mode": "dfs"})
+    cf.append({"progs": ["T9", "T10"], "kinds": ["enter_before", "enter_after", "explicit"], "mode": "dfs"})
+    cf.append({"progs": ["T10", "T10", "T9"], "kinds": ["enter_before"], "mode": "dfs"})
+    cf.append({"progs": ["T11", "T11"], "kinds": ["explicit", "enter_after"], "mode": "dfs"})
+    cf.append({"progs": ["T11", "T12"], "kinds": ["explicit"], "mode": "dfs"})
+    cf.append({"progs": ["T12", "T12"], "kinds": ["explicit", "enter_after"], "mode": "dfs"})
+    cf.append({"progs": ["T13", "T13"], "kinds": ["rule"], "mode": "dfs"})
+    cf.append({"progs": ["T13", "T13", "T13"], "kinds": ["rule"], "mode": "random", "n": 200})
+    cf.append({"progs": ["T1", "T13"], "kinds": ["rule", "enter_after"], "mode": "random", "n": 200})
+    cf.append({"progs": ["T13", "T13"], "kinds": ["line_bp"], "mode": "random", "n": 150})
+    cf.append({"progs": ["T13", "T11", "T13"], "kinds": ["line_bp"], "mode": "random", "n": 100})
     # sampled configurations
     nrand = 150 if tier == "quick" else 3000
     for progs_ in (["T1", "T3", "T6"], ["T1", "T2", "T3", "T4"], ["T6", "T6"], ["T2", "T5", "T1"], ["T1", "T1", "T1", "T1"], ["T3", "T6", "T5"], ["T7", "T8", "T1"], ["T8", "T8"]):
@@ -461,6 +559,7 @@ def configs(tier):
 def run_shard(pid, tier, seed, idx, n):
     common.setup_repo()
     install_trace_hook()
+    install_rule_hook()
     res = _new_result()
     cf = configs(tier)
     res["info"]["configs"] = len(cf)
@@ -472,6 +571,10 @@ def run_shard(pid, tier, seed, idx, n):
         try:
             if "line" in c["kinds"]:
                 ly = LineYield()
+                ly.start()
+            elif "line_bp" in c["kinds"]:
+                # LINE events inside the backward pass machinery (toposort, backward_pass, add_outgrads)
+                ly = LineYield(files=("util.py", "core.py"), kind="line_bp")
                 ly.start()
             explore(res, c, tier, seed, idx, n, budget)
         except Exception:
@@ -494,6 +597,7 @@ def run_shard(pid, tier, seed, idx, n):
 def replay(pid, case):
     common.setup_repo()
     install_trace_hook()
+    install_rule_hook()
     res = _new_result()
     if case["kind"] == "schedule":
         cfg = case["cfg"]
@@ -501,8 +605,23 @@ def replay(pid, case):
         thunks = [(lambda nm=nm, pr=PARAMS[i]: P[nm](*pr)) for i, nm in enumerate(cfg["progs"])]
         with warnings.catch_warnings():
             warnings.simplefilter("ignore")
-            solo = [enc(t()) for t in thunks]
-        results, errors, trace = SCHED.run(thunks, prefix=case["choices"], kinds=cfg["kinds"])
+            solo = []
+            for t in thunks:
+                reset_shared()
+                solo.append(enc(t()))
+            reset_shared()
+        ly = None
+        if "line" in cfg["kinds"]:
+            ly = LineYield()
+            ly.start()
+        elif "line_bp" in cfg["kinds"]:
+            ly = LineYield(files=("util.py", "core.py"), kind="line_bp")
+            ly.start()
+        try:
+            results, errors, trace = SCHED.run(thunks, prefix=case["choices"], kinds=cfg["kinds"])
+        finally:
+            if ly is not None:
+                ly.stop()
         for i in range(len(thunks)):
             if errors[i] is not None or enc(results[i]) != solo[i]:
                 res["violations"].append({"sig": {"engine": "threads", "progs": cfg["progs"], "symptom": "schedule_interference"}, "case": case, "detail": "thread %d: %s vs solo %s (error %r)" % (i, common.brief(results[i]), common.brief(common.dec(solo[i])), errors[i])})
